@@ -465,4 +465,4 @@ def _r06_9(res, P, cfgname):
                              "silently (and an integral one may be refused)" % f["p"], mir.span_loc(st.get("sp") or f["sp"]))
     res.floor("R06.9", cfgname, n, 2, "Ok results of rational -> integer conversions")
 LEVEL = LEVEL + ' (R06.9) TryFrom<rational> for UBig / IBig (to which RBig, Relaxed and every primitive target delegate) build Ok only behind `denominator.is_one()` of the source.'
-
+TECHNIQUE = TECHNIQUE + '; dominance of Ok results by the denominator test in rational -> integer conversions; shift-amount dependence inside power-of-two-base branches'
